@@ -1366,7 +1366,11 @@ def _r4(ctx: Ctx, m: pf.Module, pw: Optional[PyWriter], pr: Optional[PyReader], 
                   gp, sd.line, detail={'points': len(pts)})
     # Call.unphased_diploid_gt_index (genetics/call.py)
     cm = pf.load(CALLPY)
-    ufn = cm.func('Call.unphased_diploid_gt_index')
+    import copy as _copy
+    from engines import c32norm as _N
+    ufn = _copy.deepcopy(cm.func('Call.unphased_diploid_gt_index'))
+    ufn.body, _ = _N._split_tuple_assigns(ufn.body)   # `a0, a1 = self._alleles[0], self._alleles[1]` is the two assignments
+    ast.fix_missing_locations(ufn)
     rets = [n for n in pf.walk_shallow(ufn) if isinstance(n, ast.Return) and n.value is not None]
     ctx.need(len(rets) == 1, 'Call.unphased_diploid_gt_index: expected one return')
     env_defs = {}
@@ -1813,8 +1817,24 @@ def _r5(ctx: Ctx, m: pf.Module, pw: PyWriter, pr: PyReader, sc: ScalaCall):
     sd = sc.G.def_('Genotype', 'allelePair', n_params=1)
     e = X.from_scala(sd.body)
     si = sd.params[0][0]
-    ok = (e[0] == 'if' and e[1] == ('bin', '<', ('name', si), ('name', 'smallAllelePair.length'))
-          and e[2] == ('call', ('name', 'smallAllelePair'), [(None, ('name', si))], None) and _call_args(e[3], ('allelePairSqrt',)) == [('name', si)])
+    # `if (i < L) table(i) else sqrt(i)` in any spelling of the comparison / order of the branches; a recognised comparison with another boundary is a defect
+    where_ = f'{GENOSC}::Genotype.allelePair'
+    ctx.need(e[0] == 'if' and e[3] is not None, f'{where_}: body is not an if/else expression')
+    cond = e[1]
+    flip = False
+    while cond[0] == 'un' and cond[1] == '!':
+        cond, flip = S.strip(cond[2]) if cond[2][0] in ('paren',) else cond[2], not flip
+    L_ = ('name', 'smallAllelePair.length')
+    ctx.need(cond[0] == 'bin' and cond[1] in ('<', '<=', '>', '>=') and {cond[2], cond[3]} == {('name', si), L_}, f'{where_}: condition `{X.show(e[1])}` is not a comparison of {si} with smallAllelePair.length')
+    op = cond[1] if cond[2] == ('name', si) else {'<': '>', '<=': '>=', '>': '<', '>=': '<='}[cond[1]]   # as `i op L`
+    if flip:
+        op = {'<': '>=', '>=': '<', '<=': '>', '>': '<='}[op]
+    tab_e = ('call', ('name', 'smallAllelePair'), [(None, ('name', si))], None)
+    is_tab = lambda x: x == tab_e
+    is_sqrt = lambda x: _call_args(x, ('allelePairSqrt',)) == [('name', si)]
+    ctx.need((is_tab(e[2]) and is_sqrt(e[3])) or (is_sqrt(e[2]) and is_tab(e[3])), f'{where_}: branches `{X.show(e[2])}` / `{X.show(e[3])}` are not smallAllelePair({si}) and allelePairSqrt({si})')
+    table_when = op if is_tab(e[2]) else {'<': '>=', '>=': '<', '<=': '>', '>': '<='}[op]   # comparison `i ? L` under which the table is consulted
+    ok = table_when == '<'
     ctx.check(ok, 'R5', f'{GENOSC}::Genotype.allelePair::bound', f'engine lookup is `{X.show(e)}`, expected if (i < smallAllelePair.length) smallAllelePair(i) else allelePairSqrt(i)', gp, sd.line)
 
 
